@@ -205,6 +205,7 @@ class Executor:
         self.stats = {}
         self.warm = set()        # table files served so far (abstract state)
         self.tainted = set()     # cache keys touched by an adversarial event since last judged
+        self.tainted_sigs = set()  # (op, argument digests) of calls whose RESULT the caller has since disturbed
         self.states = set()
         self.transitions = set()
         self.intr_sites = set()
@@ -297,6 +298,8 @@ class Executor:
         m = self.meta.get(t["ref"])
         if m is not None:
             m["mutated"] = True
+            if ev["changed"] and m.get("sig"):
+                self.tainted_sigs.add(m["sig"])
 
     def _do_call(self, st, ev):
         spec = OPS[st["op"]]
@@ -407,10 +410,14 @@ class Executor:
                 self._bump("calls_judged")
                 self._bump("judged:" + spec.family)
                 ev["judged"] = True
-                if key and key in self.tainted:
+                sig = (st["op"], tuple(ev["pre"]))
+                arg_mutated = any((self.meta.get(A.get("ref")) or {}).get("mutated")
+                                  for A in list(st.get("args", [])) + [a for _, a in st.get("kw", [])] if "ref" in A)
+                if (key and key in self.tainted) or sig in self.tainted_sigs or arg_mutated:
                     self._bump("judged_after_adversarial_event")
                     ev["after_taint"] = True
                     self.tainted.discard(key)
+                    self.tainted_sigs.discard(sig)
                 if ref["out"] != out:
                     self._violation(ev, st, "I1", f"result of {st['op']} differs from a fresh interpreter",
                                     {"live": out, "fresh": ref["out"]})
@@ -436,7 +443,8 @@ class Executor:
         if kind == "ok":
             self.slots[st["id"]] = value
             self._register(st["id"], value, out["v"], {"op": st["op"], "args": st.get("args", []),
-                                                      "kw": st.get("kw", []), "key": key})
+                                                      "kw": st.get("kw", []), "key": key,
+                                                      "sig": (st["op"], tuple(ev["pre"]))})
             ev["tag"] = self.meta[st["id"]]["tag"]
         else:
             ev["tag"] = "exc"
